@@ -152,7 +152,7 @@ Theorem richardson_amg_strict_Qc (kd : @relax_kind QcS) k nc pc prm (u x0 : vec 
 Proof.
   intros Hk A B Lu Lx Hd Hp Hr i Hi Hne j Hj.
   assert (Hdk : descs_ok kd exH).
-  { apply (descs_okb_ok QcS_field QcS_eqb QcS_ordered QcS_abs2).
+  { apply (descs_okb_ok QcS_field QcS_eqb QcS_ordered QcS_abs2 QcS_sadj_id).
     destruct Hk as [->|[->|[->| ->]]]; vm_compute; reflexivity. }
   assert (Ht : top_strict_desc kd exH).
   { destruct Hk as [->|[->|[->| ->]]]; cbn.
@@ -160,7 +160,7 @@ Proof.
     - right. apply (iddb_ok QcS_eqb). vm_compute. reflexivity.
     - exact I.
     - exact I. }
-  destruct (built_contracts2 QcS_field QcS_eqb QcS_ordered QcS_abs2 kd 1 true 10 exTs exM k nc pc Hdk Ht I)
+  destruct (built_contracts2 QcS_field QcS_eqb QcS_ordered QcS_abs2 QcS_sadj_id kd 1 true 10 exTs exM k nc pc Hdk Ht I)
     as (HJ & _).
   apply (richardson_strict_of_C02 QcS_ring QcS_eqb QcS_ordered 4 rateM rateM_wf rateM_rows rateM_sym B
            (rateB_len _ _ _ _) (rateB_zero _ _ _ _))
